@@ -165,7 +165,7 @@ func canonAll(xs []string) string {
 // ---- requests ----
 
 type op struct {
-	kind  string // open change change2 hover definition symbols
+	kind  string // open openplain change change2 hover definition symbols
 	uri   int
 	text  int // text index (open/change); for change2 the LAST change
 	text0 int // change2: the first (superseded) change
@@ -174,7 +174,7 @@ type op struct {
 
 func (o op) String() string {
 	switch o.kind {
-	case "open", "change":
+	case "open", "change", "openplain":
 		return fmt.Sprintf("%s(u%d,t%d)", o.kind, o.uri, o.text)
 	case "change2":
 		return fmt.Sprintf("change(u%d,[t%d,t%d])", o.uri, o.text0, o.text)
@@ -189,6 +189,10 @@ func uriOf(i int) string { return fmt.Sprintf("file:///doc%d.num", i) }
 func params(o op, text func(i int) string, positions [][2]int) (string, any) {
 	td := map[string]any{"uri": uriOf(o.uri)}
 	switch o.kind {
+	case "openplain":
+		// the same text on every URI (no version marker)
+		plainText = baseTexts[o.text]
+		return "textDocument/didOpen", map[string]any{"textDocument": map[string]any{"uri": uriOf(o.uri), "languageId": "numscript", "version": 1, "text": baseTexts[o.text]}}
 	case "open":
 		return "textDocument/didOpen", map[string]any{"textDocument": map[string]any{"uri": uriOf(o.uri), "languageId": "numscript", "version": 1, "text": text(o.text)}}
 	case "change":
@@ -222,6 +226,8 @@ var baseTexts = []string{
 
 // positions probed by hover / definition in histories (chosen to fall on variable uses in some
 // version of some text and on nothing in others)
+var plainText string
+
 var histPositions = [][2]int{{1, 6}, {2, 6}, {3, 18}, {1, 12}}
 
 type runner struct {
@@ -258,9 +264,12 @@ func (rn *runner) replay(ops []op, label string) bool {
 		method, p := params(o, tf, histPositions)
 		// what the written text is (the last content change)
 		var written string
-		isWrite := o.kind == "open" || o.kind == "change" || o.kind == "change2"
+		isWrite := o.kind == "open" || o.kind == "change" || o.kind == "change2" || o.kind == "openplain"
 		if isWrite {
 			written = textOf[version]
+			if o.kind == "openplain" {
+				written = plainText
+			}
 			latest[o.uri] = written
 			writesSoFar++
 		}
@@ -320,6 +329,7 @@ func alphabet() []op {
 		for t := 0; t < 4; t++ {
 			a = append(a, op{kind: "open", uri: u, text: t}, op{kind: "change", uri: u, text: t})
 		}
+		a = append(a, op{kind: "openplain", uri: u, text: 0}, op{kind: "openplain", uri: u, text: 1})
 		a = append(a, op{kind: "change2", uri: u, text0: 0, text: 1}, op{kind: "change2", uri: u, text0: 2, text: 0}, op{kind: "change2", uri: u, text0: 1, text: 3})
 		for p := 0; p < 2; p++ {
 			a = append(a, op{kind: "hover", uri: u, pos: p}, op{kind: "definition", uri: u, pos: p})
@@ -354,7 +364,7 @@ func runC19(c *fw.Ctx) {
 			for j := 0; j < l; j++ {
 				ops[j] = al[x%na]
 				x /= na
-				if ops[j].kind == "open" || ops[j].kind == "change" || ops[j].kind == "change2" {
+				if ops[j].kind == "open" || ops[j].kind == "change" || ops[j].kind == "change2" || ops[j].kind == "openplain" {
 					writes++
 					lastIsQuery = false
 				} else {
@@ -377,7 +387,7 @@ func runC19(c *fw.Ctx) {
 		c.Count("exhaustive_spaces_completed", 1)
 	}
 	// random long histories over 4 URIs
-	n := c.N(300, 20000)
+	n := c.N(600, 20000)
 	for i := 0; i < n; i++ {
 		id := "rand/" + itoa(i)
 		if !c.Want(50_000_000+i, id) {
@@ -388,7 +398,10 @@ func runC19(c *fw.Ctx) {
 		ops := make([]op, l)
 		for j := range ops {
 			o := op{uri: r.Intn(4), text: r.Intn(4), text0: r.Intn(4), pos: r.Intn(len(histPositions))}
-			o.kind = r.Pick("open", "change", "change", "change2", "hover", "hover", "definition", "symbols")
+			o.kind = r.Pick("open", "openplain", "change", "change", "change2", "hover", "hover", "definition", "symbols")
+			if o.kind == "openplain" {
+				o.text = r.Intn(2)
+			}
 			ops[j] = o
 		}
 		if !rn.replay(ops, "random") {
